@@ -69,7 +69,9 @@ def c14_r2(ctx: Ctx, rule):
     res = RuleResult()
     q = GR + ".prov_to_graph"
     fi = ctx.fn(q)
-    ctors = [c for c in calls_in(fi.node) if isinstance(c.func, ast.Subscript) and len(c.args) == 2]
+    ctors = []
+    for q2 in ctx.helper_closure(q):
+        ctors += [c for c in calls_in(ctx.fn(q2).node) if isinstance(c.func, ast.Subscript) and len(c.args) == 2]
     if not ctors:
         raise AnalysisError("prov_to_graph: inferred-node constructions not found")
     for c in ctors:
